@@ -282,3 +282,24 @@ func H_C20_train_twice() {
 	vCover("ran")
 	_ = math.Pi
 }
+
+func init() { vHarnesses["H_C20_kmeans_finite"] = H_C20_kmeans_finite }
+
+// centroids have finite coordinates (bounded finite inputs), also when a cluster stays empty
+func H_C20_kmeans_finite() {
+	dist, _ := NewDistance(L2Squared)
+	dup := vChoose("duplicate_points", 2) == 1
+	a, b := vF32("a"), vF32("b")
+	vAssume(vAnd(a >= -1e6, a <= 1e6))
+	vAssume(vAnd(b >= -1e6, b <= 1e6))
+	vecs := [][]float32{{a}, {b}, {a}}
+	if !dup {
+		vecs = [][]float32{{a}, {b}}
+	}
+	cents, assign := KMeans(vecs, 2, dist, 2)
+	vAssert(len(cents) == 2 && len(assign) == len(vecs), "kmeans-shape")
+	for _, c := range cents {
+		vAssert(vFinite32(c[0]), "centroid-coordinates-finite")
+	}
+	vCover("ran")
+}
